@@ -424,7 +424,7 @@ def main():
         res = [trace_case(ops, req["mode"], req["build"]) for ops in req["cases"]]
     elif what == "oracle":
         import card_spec
-        res = [card_spec.check_sequence(ops, new_card, apply_op, req.get("build")) for ops in req["cases"]]
+        res = [card_spec.check_sequence(ops, new_card, apply_op, req.get("build"), model_op) for ops in req["cases"]]
     elif what == "dfcheck":
         res = dfcheck(req["seed"], req["n"])
     elif what == "whitespace":
